@@ -102,3 +102,23 @@ def hang_signature(sim, ticket):
             names.index('join') > names.index('close'):
         return 'close-wait-no-pending-reader'
     return 'hang:' + '>'.join(eng[-4:] or frames[-3:])
+
+
+def dfs_schedules(run_leaf, limit):
+    """Stateless depth-first enumeration of the cooperative schedules of one
+    scenario on the threaded engine (CHESS style, on the real code).
+    run_leaf(prefix) builds a fresh simulator with policy='fifo' and the
+    forced choice prefix, runs and judges the scenario, tears it down and
+    returns the scheduler's choice trace [(alternatives, chosen), ...].
+    Returns (leaves explored, tree exhausted)."""
+    prefix, leaves = [], 0
+    while leaves < limit:
+        trace = run_leaf(list(prefix))
+        leaves += 1
+        j = len(trace) - 1
+        while j >= 0 and trace[j][1] + 1 >= trace[j][0]:
+            j -= 1
+        if j < 0:
+            return leaves, True
+        prefix = [c for n, c in trace[:j]] + [trace[j][1] + 1]
+    return leaves, False
